@@ -24,6 +24,7 @@ def run(model, rep, tier):
     c07.r1_r2_wire(ctx, rep, R1='C12.R5', R2='C12.R5')
     r6_labels(ctx, rep)
     r7_entry_shapes(ctx, rep)
+    r8_per_object_state(ctx, rep)
     rep.units['cfg'] = ctx.cfg_stats
 
 
@@ -399,3 +400,106 @@ def r7_entry_shapes(ctx, rep, R='C12.R7'):
                       key='shape:%s:%s' % (q, norm(c)[:70]), func=fi.qualname, where=ctx.where(fi, c))
     rep.floor(R, n_sites, 6, 'accumulator writes')
     rep.floor(R, len(pair_readers), 2, 'accumulators read by pair unpacking')
+
+
+def r8_per_object_state(ctx, rep, R='C12.R8'):
+    """Counts and lists are kept per object (one result per layer, one record per suite ...).  A
+    mutable value bound at CLASS level is one object shared by all instances; if instances add to it
+    in place, every instance sees (and reports) everybody's entries."""
+    rep.rule(R, 'per-object accumulators are per object: no list / dict / set bound at class level is '
+             'mutated in place through an instance (unless __init__ gives every instance its own)')
+    MUT = ('append', 'extend', 'insert', 'add', 'update', 'setdefault', 'pop', 'remove', 'clear', 'popitem')
+    m = ctx.model
+
+    def mutable(v):
+        if isinstance(v, (ast.List, ast.Dict, ast.Set, ast.ListComp, ast.DictComp, ast.SetComp)):
+            return True
+        return isinstance(v, ast.Call) and not v.args and not v.keywords and \
+            (dotted(v.func) or '').split('.')[-1] in ('list', 'dict', 'set', 'deque', 'defaultdict', 'OrderedDict')
+    n = 0
+    for ci in m.all_classes():
+        shared = {}
+        for st in ci.node.body:
+            if isinstance(st, ast.Assign) and len(st.targets) == 1 and isinstance(st.targets[0], ast.Name) \
+                    and mutable(st.value):
+                shared[st.targets[0].id] = st
+        if not shared:
+            continue
+        # attributes every instance gets for itself in __init__ (this class or a subclass ...)
+        own = set()
+        for cj in m.all_classes():
+            if cj is ci or ci in m.mro(cj):
+                init = cj.methods.get('__init__')
+                if init is not None:
+                    for x in ast.walk(init.node):
+                        if isinstance(x, ast.Assign):
+                            for t in x.targets:
+                                if isinstance(t, ast.Attribute) and is_name(t.value, 'self'):
+                                    own.add(t.attr)
+        family = {cj.qualname for cj in m.all_classes() if cj is ci or ci in m.mro(cj)}
+
+        def classes_named(e, fi):
+            d = dotted(e)
+            r = m.lookup(m.resolve_dotted(fi.module, d)) if d else None
+            return {r.qualname} if r is not None and hasattr(r, 'methods') else set()
+
+        def local_types(fi, name, depth=0):
+            out = set()
+            for v in local_assignments(fi.node).get(name, []):
+                if isinstance(v, ast.Call):
+                    out |= classes_named(v.func, fi)
+                    if isinstance(v.func, ast.Name) and depth < 2:      # result_factory(...)
+                        for w in local_assignments(fi.node).get(v.func.id, []):
+                            if isinstance(w, ast.AST):
+                                out |= classes_named(w, fi)
+            ps = [a.arg for a in fi.node.args.posonlyargs + fi.node.args.args]
+            if name in ps and depth < 2:
+                i = ps.index(name)
+                for fj in m.all_functions():
+                    for c in own_calls(fj.node):
+                        args = None
+                        if call_name(c) == fi.name:
+                            args = c.args
+                        elif (dotted(c.func) or '').endswith('Thread') and kw(c, 'target') is not None and \
+                                dotted(kw(c, 'target')) == fi.name and isinstance(kw(c, 'args'), ast.Tuple):
+                            args = kw(c, 'args').elts
+                        if args is not None and i < len(args) and isinstance(args[i], ast.Name):
+                            out |= local_types(fj, args[i].id, depth + 1)
+            return out
+
+        def is_instance(recv, fi):
+            if is_name(recv, 'self'):
+                return fi.cls is not None and fi.cls.qualname in family
+            if isinstance(recv, ast.Name):
+                return bool(local_types(fi, recv.id) & family)
+            return False
+        for attr, st in shared.items():
+            n += 1
+            if attr in own:
+                rep.ok(R, '%s.%s: class-level default, but __init__ binds a fresh one per instance' % (ci.qualname, attr))
+                continue
+            sites = []
+            for fi in m.all_functions():
+                for x in ast.walk(fi.node):
+                    tgt = None
+                    if isinstance(x, ast.Call) and isinstance(x.func, ast.Attribute) and x.func.attr in MUT and \
+                            isinstance(x.func.value, ast.Attribute) and x.func.value.attr == attr:
+                        tgt = x.func.value.value
+                    elif isinstance(x, ast.AugAssign) and isinstance(x.target, ast.Attribute) and \
+                            x.target.attr == attr:
+                        tgt = x.target.value
+                    elif isinstance(x, ast.Subscript) and isinstance(x.ctx, (ast.Store, ast.Del)) and \
+                            isinstance(x.value, ast.Attribute) and x.value.attr == attr:
+                        tgt = x.value.value
+                    if tgt is not None and is_instance(tgt, fi):
+                        sites.append((fi, x))
+            rep.check(not sites, R, '%s.%s: class-level %s is never mutated through an instance' % (
+                ci.qualname, attr, norm(st.value)),
+                'the mutable class attribute %s.%s = %s is shared by all instances, and %s adds to it in '
+                'place (%s): every instance -- e.g. the result object of every layer -- holds and reports '
+                'the entries of all of them' % (ci.qualname, attr, norm(st.value),
+                                                 sites[0][0].qualname if sites else '',
+                                                 norm(sites[0][1])[:80] if sites else ''),
+                key='shared:%s.%s' % (ci.qualname, attr), func=ci.qualname,
+                where='%s:%s' % (ci.module.path, st.lineno))
+    rep.sample('class-level mutable defaults examined: %d' % n)
